@@ -446,12 +446,19 @@ static void do_op(char** w, int n) {
   }
   else if (OP("eq")) { fprintf(o, "%d", (int)eq(arg(w[1]), arg(w[2]))); }
   else if (OP("hash")) { fprintf(o, "%016" PRIx64, hash(arg(w[1]))); }
-  else if (OP("hash_data")) {            /* hash_data hex offset : hash bytes placed at a chosen alignment */
+  else if (OP("hash_data")) {            /* hash_data hex offset : bytes placed at a chosen alignment, at the very end of their
+                                            allocation (an over-read hits the ASan redzone) and, in a second copy, followed by 0xA5 */
     size_t nb; unsigned char* d = keep(unhex(w[1], &nb)); int off = atoi(w[2]);
-    unsigned char* raw = keep(malloc(nb + 16));
-    unsigned char* p = (unsigned char*)(((uintptr_t)raw + 7) & ~(uintptr_t)7) + off;
+    unsigned char* raw = keep(malloc(nb + (size_t)off + 1));
+    unsigned char* p = raw + off;                 /* malloc is 16-aligned: p has alignment offset `off` */
     memcpy(p, d, nb);
-    fprintf(o, "%016" PRIx64, hash_data(p, nb));
+    uint64_t h1 = hash_data(p, nb);
+    unsigned char* raw2 = keep(malloc(nb + (size_t)off + 32));
+    memset(raw2, 0xA5, nb + (size_t)off + 32);
+    memcpy(raw2 + off, d, nb);
+    uint64_t h2 = hash_data(raw2 + off, nb);
+    if (h1 isnt h2) { fprintf(o, "DIFFERENT-FOR-SAME-BYTES %016" PRIx64 " %016" PRIx64, h1, h2); }
+    else { fprintf(o, "%016" PRIx64, h1); }
   }
   else if (OP("show")) {                  /* show A [pos prefixhex] */
     var out = new(String, $S(""));
